@@ -228,7 +228,7 @@ class C19(core.Check):
     rule = (
         "stack cases: Grid of nx x ny (1..5 each) cells with unequal sides, nz (1..4) tiers, extruded / revolved / "
         "transformed (translation + twist), random rigid placement; observed are all of stack.grid, stack.operations, "
-        "get_slice for every axis 0..2 and every index 0..size (size itself: IndexError), and the blocks written after "
+        "get_slice for every axis 0..2 and every index 0..size (size itself: rejected with an exception), and the blocks written after "
         "Mesh.delete of one addressed operation (called before add, after add, or after assemble() and followed by backport()), the corner points of every addressed face (un-placed) and the operations chopped by "
         "Stack.chop. round cases: each of 15 sketch classes and 11 + 9 shape constructions in a "
         "random placement and size. Non-trivial = every case (sizes 1x1x1 included as boundary); distinct = different "
@@ -811,7 +811,8 @@ class C19(core.Check):
                 a, idx = (int(x) for x in key.split(":"))
                 size = (nx, ny, nz)[a]
                 if idx >= size:
-                    if got != "IndexError":
+                    # any raised exception is a rejection (which class it has to be is C20's business); a list is not
+                    if not isinstance(got, str):
                         out.append({"site": f"Stack.get_slice:axis{a}:index-beyond-size-accepted", "what": f"get_slice({a}, {idx}) -> {got}"})
                     continue
                 want = sorted(o for o in allops if int(o.split("~")[0].split(".")[a]) == idx)
